@@ -489,7 +489,11 @@ func (e *engine) checkWindow(w *window) {
 			armed = true
 		case ev.Kind == "pos":
 			if !armed {
-				e.fail("C13.position-changes-only-by-forwarded-files", "local-position-change-during-halt", false, map[string]any{"node": w.node, "event": ev, "window": []int64{w.start, w.end}})
+				sig := "local-position-change-during-halt"
+				if ev.Chk == uint64(ltx.ChecksumFlag) {
+					sig += "/to-the-empty-checksum" // the database was dropped
+				}
+				e.fail("C13.position-changes-only-by-forwarded-files", sig, false, map[string]any{"node": w.node, "event": ev, "window": []int64{w.start, w.end}})
 				return
 			}
 			armed = false
@@ -1085,6 +1089,34 @@ func (e *engine) doStep(st step) {
 			obs = "other: " + r.Err.Error()
 		}
 
+	case "LDrop":
+		// the primary's application unlinks the database (FUSE unlink -> RootNode.Remove -> DB.Drop)
+		p := e.prim
+		halted := e.held[p] != 0
+		before := w.pos(p)
+		var err error
+		pn, to := bounded("local-drop", 60*time.Second, func() {
+			c := w.n[p].Connect(w.db, 4242)
+			err = c.RemoveDB()
+		})
+		if e.callTrouble("local drop", pn, to) {
+			return
+		}
+		e.res.Evals++
+		after := w.pos(p)
+		if err == nil || after != before {
+			obs = "ok"
+			if halted {
+				e.fail("C13.no-local-transaction-while-halted", "local-drop-admitted-during-halt", false, map[string]any{"primary": p, "lock_id": e.held[p],
+					"position_before": before.String(), "position_after": after.String(), "error": sim.ErrString(err), "lock_table": w.lockTable(p),
+					"what": "while a replica holds the database's halt lock the primary executed an unlink of the database: a local transaction (the position advanced) inside the halt"})
+			}
+		} else {
+			obs = "busy"
+		}
+		// the database is gone (or the unlink was refused): the script ends here
+		e.dead = true
+
 	case "Ckpt":
 		p := e.prim
 		halted := e.held[p] != 0
@@ -1569,6 +1601,9 @@ func directed() []script {
 		{NoModel: true, Src: "directed/holder-loses-its-primary", H: []step{
 			mk("Acquire", none), mk("RTx", none), mk("Block", gArgs{N: "R"}), mk("RTx", none), mk("Unblock", gArgs{N: "R"}),
 			mk("Expire", gArgs{N: "P"}), mk("LWBegin", gArgs{}), mk("LWCommit", gArgs{})}},
+		// the primary's application unlinks the database while the replica holds the halt lock
+		{NoModel: true, Src: "directed/local-drop-during-halt", H: []step{
+			mk("Acquire", none), mk("RTx", none), mk("LDrop", gArgs{})}},
 		{NoModel: true, Src: "directed/lagging-holder", H: []step{
 			mk("Lag", gArgs{}), mk("LWBegin", gArgs{}), mk("LWCommit", gArgs{}), mk("LagWait", gArgs{}), mk("Acquire", none), mk("RTx", none), mk("Release", none)}},
 	}
